@@ -75,6 +75,10 @@ fn gen_off(ch: &mut Choices, align: i8, on_grid: bool) -> i32 {
         4 => ch.range(-70000, 70000) as i32,
         _ => 2,
     };
+    if ch.chance(10) {
+        // the ends of the offset type: factoring must neither wrap nor panic there (i32::MIN / -1 does not fit)
+        return ch.pick(&[i32::MIN, i32::MAX, i32::MIN + 1, i32::MIN + 8, i32::MAX - 7]);
+    }
     if on_grid {
         k.saturating_mul(align as i32)
     } else {
@@ -95,7 +99,7 @@ fn gen_si(ch: &mut Choices, data_align: i8, in_fde: bool, bad: &mut bool) -> SI 
     match ch.below(if in_fde { 17 } else { 14 }) {
         0 | 1 => {
             let o = gen_off(ch, data_align, on);
-            if o < 0 && (!on || data_align == 0) {
+            if o < 0 {
                 *bad = *bad || off_grid(o, data_align);
             }
             SI::Cfa(gen_reg(ch), o)
